@@ -139,7 +139,7 @@ package keeper
 //@ func (*Keeper).SetTaskChallengedInfo
 //@   flag noframe
 //@   flag pure=AccAddressFromBech32,FormatUint
-//@   before[C20.stci.key] prefix.Store).Set requires arg1 == join(operatorAddress, res_String_0, res_FormatUint_0) && arg2 == res_AccAddressFromBech32_0
+//@   before[C20.stci.key] prefix.Store).Set requires arg1 == join(operatorAddress, res_String_0, decu64(taskID)) && arg2 == res_AccAddressFromBech32_0
 
 // C20 (task results are accepted only from operators with a registered BLS key): a BLS key is recorded only together
 // with a registration signature that VERIFIES under that key (a signature that decodes but does not verify is refused
@@ -157,7 +157,7 @@ package keeper
 // from the collection the results are written to, under the result's own key.
 //@ func (*Keeper).IsExistTaskResultInfo
 //@   flag pure=FormatUint
-//@   ensures[C20.ietri.key] r0 == (get(ctx, "avs", cat(g("x/avs/types.KeyPrefixTaskResult"), join(operatorAddress, taskContractAddress, res_FormatUint_0))) != nil)
+//@   ensures[C20.ietri.key] r0 == (get(ctx, "avs", cat(g("x/avs/types.KeyPrefixTaskResult"), join(operatorAddress, taskContractAddress, decu64(taskID)))) != nil)
 
 // C20 / C10 (a result is recorded for an operator only when that operator sent the message): the keeper is given the
 // MESSAGE SENDER as the submitting address, which it compares with the operator the result is attributed to.
@@ -182,4 +182,4 @@ package keeper
 // the collection the challenges are written to, under the key they are written under - operator, task contract, task id.
 //@ func (*Keeper).IsExistTaskChallengedInfo
 //@   flag pure=FormatUint
-//@   ensures[C20.ietci.key] r0 == (get(ctx, "avs", cat(g("x/avs/types.KeyPrefixTaskChallengeResult"), join(operatorAddress, taskContractAddress, res_FormatUint_0))) != nil)
+//@   ensures[C20.ietci.key] r0 == (get(ctx, "avs", cat(g("x/avs/types.KeyPrefixTaskChallengeResult"), join(operatorAddress, taskContractAddress, decu64(taskID)))) != nil)
